@@ -12,6 +12,8 @@ void with_shape(const std::string &shape, F &&f)
     else if (shape == "dsb") f.template operator()<S_DSB>();
     else if (shape == "lb") f.template operator()<S_LB>();
     else if (shape == "dd") f.template operator()<S_DD>();
+    else if (shape == "bb") f.template operator()<S_BB>();
+    else if (shape == "bl") f.template operator()<S_BL>();
     else throw std::runtime_error("unknown shape " + shape);
 }
 
